@@ -400,7 +400,10 @@ Inductive behaviour :=
 | SResp (code : Z) (parsed : option envelope)   (* answers *)
 | SDrop                                         (* closes the connection: transport error *)
 | SCancelHdr                                    (* the context is cancelled while waiting for the response *)
-| SCancelBody (code : Z).                       (* the context is cancelled after the header, while reading the body *)
+| SCancelBody (code : Z)                        (* the context is cancelled after the header, while reading the body *)
+| SCutBody (code : Z).                          (* header with this status, then the transport fails while the body is read
+                                                   (connection closed before Content-Length / before the last chunk),
+                                                   whatever bytes had arrived: resp.Body read returns an error *)
 
 Record net := { n_script : list behaviour; n_done : bool; n_seen : list request (* newest first *) }.
 
@@ -417,6 +420,7 @@ Definition http_do (rq : request) (n : net) : outcome * net :=
         | SDrop => (OErr None, {| n_script := rest; n_done := false; n_seen := seen |})
         | SCancelHdr => (OErr None, {| n_script := rest; n_done := true; n_seen := seen |})
         | SCancelBody c => (OErr (Some c), {| n_script := rest; n_done := true; n_seen := seen |})
+        | SCutBody c => (OErr (Some c), {| n_script := rest; n_done := false; n_seen := seen |})
         end
     end.
 
@@ -592,7 +596,7 @@ Definition spec_warnings (code : Z) (parsed : option envelope) : list str :=
 (* --- a whole call against a scripted peer: which requests are demanded, and which result *)
 
 Definition behaviour_code (b : behaviour) : option Z :=
-  match b with SResp c _ => Some c | SCancelBody c => Some c | _ => None end.
+  match b with SResp c _ => Some c | SCancelBody c => Some c | SCutBody c => Some c | _ => None end.
 
 (* requests the peer must receive, given the script *)
 Definition spec_requests (prefix_segs : list str) (c : api_call) (script : list behaviour) (precancelled : bool) : list request :=
@@ -606,6 +610,7 @@ Definition spec_requests (prefix_segs : list str) (c : api_call) (script : list 
       post_form path ps ::
       match script with
       | SResp code _ :: _ => if is_fallback_code code then [get_query path ps] else []
+      | SCutBody code :: _ => if is_fallback_code code then [get_query path ps] else []   (* the status was received *)
       | _ => []
       end
   end.
@@ -615,6 +620,7 @@ Definition spec_final (c : api_call) (script : list behaviour) (precancelled : b
   if precancelled then None else
   match spec_kind c, script with
   | KFallback, SResp code p :: rest => if is_fallback_code code then hd_error rest else Some (SResp code p)
+  | KFallback, SCutBody code :: rest => if is_fallback_code code then hd_error rest else Some (SCutBody code)
   | _, b :: _ => Some b
   | _, [] => None
   end.
@@ -683,8 +689,13 @@ Definition answer_of (b : option behaviour) : outcome :=
   match b with
   | Some (SResp c p) => OResp c p
   | Some (SCancelBody c) => OErr (Some c)
+  | Some (SCutBody c) => OErr (Some c)
   | _ => OErr None
   end.
+
+(* the status code the client has seen when the answer (or its header) arrived without the context being done *)
+Definition received_code (b : behaviour) : option Z :=
+  match b with SResp c _ => Some c | SCutBody c => Some c | _ => None end.
 
 (* a 204 answer has no body (RFC 9110 15.3.5; net/http enforces it on both sides) *)
 Definition wf_answer (code : Z) (parsed : option envelope) : Prop := code = 204 -> parsed = None.
